@@ -322,14 +322,12 @@ def c15_r3(ctx):
         t = b["term"]
         if t["k"] == "assert" and t["msg"]["k"] == "bounds_check":
             io = enc.origins_of_operand(t["msg"]["index"])
-            if any(is_call(o, "std::option::Option::<T>::unwrap") for o in io):
-                for o in io:
-                    uw = enc.call_at[o[0][2]]
-                    for o2 in enc.origins_of_operand(uw.args[0]):
-                        if is_call(o2, "num_traits::ToPrimitive::to_u32"):
-                            tu = enc.call_at[o2[0][2]]
-                            if all(is_call(o3, "std::ops::Rem::rem") for o3 in enc.origins_of_operand(tu.args[0])):
-                                found = True
+            # (`to_u32(rem(n, base))` unwrapped: the payload of the conversion's Some)
+            for o2 in io:
+                if is_call(o2) and o2[0][3].startswith("num_traits::ToPrimitive::to_") and o2[1:] == (("variant", "Some"), ("field", 0)):
+                    tu = enc.call_at[o2[0][2]]
+                    if all(is_call(o3, "std::ops::Rem::rem") for o3 in enc.origins_of_operand(tu.args[0])):
+                        found = True
     if not found:
         ctx.viol((enc.id, "digit-not-remainder"), "the digit index is not `n % base`", enc.where(0))
 
@@ -1258,7 +1256,12 @@ def c16_r6(ctx):
                 if used:
                     raise AnalysisError("idiom not recognised: %s writes state with `write` and examines the count itself (the rule reads write_all only)" % fid)
                 ctx.viol((fid, "state-written-with-write"), "the state file is written with `write` and the number of bytes accepted is ignored: a short write leaves a torn file that is reported as saved, and the next invocation rejects it", c.where)
-    ctx.need(n >= 2, "write sites of the state writers")
+    ctx.need(n >= 1, "write sites of the state writers")
+    # every serialising function has a write site of its own or in a helper it calls
+    for fid in sorted(ser):
+        own = {fid} | {t for c in P.fns[fid].calls for t in P.local_targets(c)}
+        if not any(x.path.startswith("std::io::Write::write") for g in own if g in P.fns for x in P.fns[g].calls):
+            raise AnalysisError("C16.R6: anchor missing: where %s writes the bytes it serialises" % fid)
 
 
 @rule("C16.R5", floor=3)
